@@ -69,11 +69,115 @@ let op_of_string (s : string) : xop =
   | "co" :: r -> XCow (true, cowop_of r)
   | _ -> failwith ("op " ^ s)
 
+(* ---- the crate's own dependent records: M|lib|Type|a,b|n|buflen --------------------------------
+   output = size:S;item:I;seq:Q;arr:A;first:F;last:L;iter:K (see harness/src/bin/c14.rs) *)
+let librec_of_string = function
+  | "AxisValue" -> L_AxisValue | "VariationRegion" -> L_VariationRegion
+  | "SVGDocumentRecord" -> L_SVGDocumentRecord | "BitmapSize" -> L_BitmapSize
+  | "SbitLineMetrics" -> L_SbitLineMetrics | "BigGlyphMetrics" -> L_BigGlyphMetrics
+  | "ScriptRecord" -> L_ScriptRecord | "FeatureRecord" -> L_FeatureRecord | "LangSysRecord" -> L_LangSysRecord
+  | "ValueRecord" -> L_ValueRecord | "PairValueRecord" -> L_PairValueRecord
+  | "Class1Record" -> L_Class1Record | "Class2Record" -> L_Class2Record
+  | "EntryExitRecord" -> L_EntryExitRecord | "BaseRecord" -> L_BaseRecord | "MarkRecord" -> L_MarkRecord
+  | "ComponentRecord" -> L_ComponentRecord
+  | s -> failwith ("lib record " ^ s)
+
+let z0 = z_of_int 0
+let zle a b = not (z_ltb b a)
+let zmin a b = if z_ltb a b then a else b
+let lib_args (s : string) : z list = if s = "-" || s = "" then [] else List.map z_of_string (split_on ',' s)
+
+let is_lib (input : string) : bool =
+  match split_on '|' input with _ :: "lib" :: _ -> true | _ -> false
+
+let run_lib (m : string) (ty : string) (args : string) (n : string) (buflen : string) : string =
+  let m = if m = "d" then Debug else Release in
+  let r = librec_of_string ty and a = lib_args args and n = z_of_string n and avail = z_of_string buflen in
+  if not (args_ok (lib_arg_tys r) a) then failwith "lib args outside the argument types";
+  let spec = lib_spec_size r a in
+  match lib_read_array_dep m r a n avail with
+  | Ok (stride, win) ->
+    let fits = lib_item_fits r a stride in
+    let item = if zle spec avail then z_to_string spec else "err:Eof" in
+    let k = zmin n (z_of_int 64) in
+    let seq = if zle (z_mul k spec) avail then z_to_string k ^ "," ^ z_to_string (z_mul k spec) else "err:Eof" in
+    let it = if fits then "ok" else "err:Eof" in
+    let (arr, first, last, iter) =
+      match win with
+      | Ok adv ->
+        let some = z_ltb z0 n in
+        (z_to_string adv ^ "," ^ z_to_string n, (if some then it else "none"), (if some then it else "none"),
+         (let c = z_to_string (zmin n (z_of_int 1000)) in if fits then c ^ ",0" else "0," ^ c))
+      | Err e -> ("err:" ^ err_to_string e, "none", "none", "none")
+      | Panic -> ("panic", "none", "none", "none")
+      | OOB -> ("oob", "none", "none", "none") in
+    Printf.sprintf "size:%s;item:%s;seq:%s;arr:%s;first:%s;last:%s;iter:%s" (z_to_string stride) item seq arr first last iter
+  | Panic -> "size:panic;item:-;seq:-;arr:panic;first:none;last:none;iter:none"
+  | Err e -> "size:err:" ^ err_to_string e
+  | OOB -> "size:oob"
+
+let lib_fields (s : string) : (string * string) list =
+  List.filter_map (fun f ->
+      match String.index_opt f ':' with
+      | Some i -> Some (String.sub f 0 i, String.sub f (i + 1) (String.length f - i - 1))
+      | None -> None) (split_on ';' s)
+
+let is_num (s : string) : bool = s <> "" && String.for_all (fun c -> c >= '0' && c <= '9') s
+
+(* model-independent: the implementation's own outputs must be consistent with each other — size(args) is
+   "the number of bytes consumed by ReadBinaryDep::read" (doc of ReadFixedSizeDep), an array of n records
+   covers n * size bytes, and every index below n is readable whenever a single record is *)
+let judge_lib (input : string) (impl : string) (model : string) : verdict =
+  let n = match split_on '|' input with [_; _; _; _; n; _] -> z_of_string n | _ -> z0 in
+  let f = lib_fields impl and g = lib_fields model in
+  let get l k = try List.assoc k l with Not_found -> "" in
+  let bad = List.find_opt (fun (_, v) -> starts_with "panic" v || starts_with "oob" v) f in
+  match bad with
+  | Some (k, v) when starts_with "oob" v -> Violation ("oob", Printf.sprintf "%s read outside the slice (VERIF-OOB)" k)
+  | Some (k, _) -> Violation ("panic", Printf.sprintf "%s panicked instead of returning a value or an error (%s)" k impl)
+  | None ->
+    let size = get f "size" and item = get f "item" and seq = get f "seq" and arr = get f "arr" in
+    let first = get f "first" and last = get f "last" and iter = get f "iter" in
+    let pair s = match split_on ',' s with [a; b] when is_num a && is_num b -> Some (z_of_string a, z_of_string b) | _ -> None in
+    let v c why = Some (Violation (c, why)) in
+    let checks = [
+      (fun () -> if is_num size && is_num item && size <> item then
+          v "stride" (Printf.sprintf "size(args) is %s but read_dep consumes %s bytes" size item) else None);
+      (fun () -> match pair seq with
+         | Some (k, c) when is_num size && not (z_eqb c (z_mul k (z_of_string size))) ->
+           v "stride" (Printf.sprintf "%s records in a row take %s bytes, size(args) is %s" (z_to_string k) (z_to_string c) size)
+         | _ -> None);
+      (fun () -> match pair arr with
+         | Some (adv, len) when not (z_eqb len n) -> v "window" (Printf.sprintf "array of declared length %s has len() %s" (z_to_string n) (z_to_string len))
+         | Some (adv, len) when is_num item && not (z_eqb adv (z_mul len (z_of_string item))) ->
+           v "window" (Printf.sprintf "read_array_dep(%s) advanced the cursor by %s bytes, one record is %s bytes" (z_to_string len) (z_to_string adv) item)
+         | _ -> None);
+      (fun () -> if pair arr <> None && is_num item && z_ltb z0 n && (first <> "ok" || last <> "ok") then
+          v "window" (Printf.sprintf "in-range read_item of an array of %s records failed (first %s, last %s) although one record reads" (z_to_string n) first last)
+        else None);
+      (fun () -> match pair arr, pair iter with
+         | Some _, Some (ok, _) when is_num item && not (z_eqb ok (zmin n (z_of_int 1000))) ->
+           v "window" (Printf.sprintf "iter_res over %s records produced %s items" (z_to_string n) (z_to_string ok))
+         | _ -> None) ] in
+    (match List.find_map (fun c -> c ()) checks with
+     | Some viol -> viol
+     | None ->
+       if impl = model then Agree
+       else if starts_with "size:panic" model then Mismatch (Printf.sprintf "model %s, implementation %s" model impl)
+       else
+         (* the model's values are the specified ones (C14_lib_dep_size_exact / C14_lib_dep_array_window) *)
+         let d = List.find_opt (fun (k, x) -> get g k <> x) f in
+         match d with
+         | Some (k, x) -> Violation ((if k = "size" then "stride" else "inexact"),
+                                     Printf.sprintf "%s is %s, specified %s" k x (get g k))
+         | None -> Mismatch "different fields")
+
 let ops_of (ops : string) : string list =
   List.filter (fun s -> s <> "") (split_on ' ' ops)
 
 let run (input : string) : string =
   match split_on '|' input with
+  | [m; "lib"; ty; args; n; buflen] -> run_lib m ty args n buflen
   | [m; buf; ops] ->
     let m = if m = "d" then Debug else Release in
     let ops = List.map op_of_string (ops_of ops) in
@@ -85,6 +189,11 @@ let run (input : string) : string =
 
 (* class of a case: the result kinds it produced + which groups of operations it exercised *)
 let tag (input : string) (out : string) : string =
+  if is_lib input then
+    (match split_on '|' input with
+     | _ :: _ :: ty :: _ -> "lib:" ^ ty ^ (if List.exists (fun (k, x) -> k = "arr" && starts_with "err" x) (lib_fields out) then "/eof" else "")
+     | _ -> "lib")
+  else
   let parts = split_on ';' out in
   let kinds = List.sort_uniq compare (List.map (fun r -> String.sub r 0 (min 2 (String.length r))) parts) in
   let groups =
@@ -173,6 +282,7 @@ let independent (ops : string list) (impl : string list) : verdict =
    value is, by C14_read_exact / C14_array_get / C14_scope_position / C14_dep_iter / ..., the
    specified one.  States may diverge after the first difference, so judging stops there. *)
 let judge (input : string) (impl : string) (model : string) : verdict =
+  if is_lib input then judge_lib input impl model else
   let a = split_on ';' impl and b = split_on ';' model in
   let ops = match split_on '|' input with [_; _; ops] -> ops_of ops | _ -> [] in
   let rec go k a b =
